@@ -1,0 +1,10 @@
+//go:build verif
+
+package filesystem
+
+// Contract for path normalisation (used by property C38). Comment-only file:
+// compiled only under the "verif" build tag, contains no code.
+
+// A normalised path is absolute and non-empty (filepath.Abs, trusted extern).
+//@ func Normalize
+//@   ensures[abs] result1 == nil ==> isabs(result0) && len(result0) >= 1
